@@ -102,7 +102,7 @@ def main():
         dst = Path(a.save)
         dst.mkdir(parents=True, exist_ok=True)
         for f in ("patch.diff", "demo.py", "notes.md"):
-            if (seed / f).exists():
+            if (seed / f).exists() and (seed / f).resolve() != (dst / f).resolve():
                 shutil.copy(seed / f, dst / f)
         meta = {
             "property": a.target,
@@ -119,6 +119,15 @@ def main():
             "detected": out.get("detected"),
             "detected_by_target_property": out.get("detected_by_target"),
         }
+        old = {}
+        if (dst / "meta.json").exists():
+            try:
+                old = json.loads((dst / "meta.json").read_text())
+            except Exception:
+                old = {}
+        for k in ("note", "round"):
+            if k in old:
+                meta[k] = old[k]
         (dst / "meta.json").write_text(json.dumps(meta, indent=1) + "\n")
     print(json.dumps(out, indent=1))
     return 0
